@@ -1,8 +1,8 @@
 (* C16 - constraint-to-penalty conversions penalise exactly the violating assignments.
    Only statements; every proof is `exact <lemma>`; examples by computation. *)
-From Coq Require Import List ZArith QArith Qcanon Bool Arith.
+From Coq Require Import List ZArith QArith Qcanon Bool Arith Sorted.
 From Dimod Require Import Base.Util Model.Poly Model.Comb Model.Penalty Model.CqmBqm Model.ChkC16
-  Proofs.PolyFacts Proofs.CombFacts Proofs.PenaltyEq Proofs.PenaltySlack Proofs.CqmBqmFacts Proofs.ChkC16Facts.
+  Proofs.PolyFacts Proofs.CombFacts Proofs.PenaltyEq Proofs.PenaltySlack Proofs.CqmBqmFacts Proofs.ChkC16Facts Proofs.PenaltyLog10 Model.DqmAdj Proofs.DqmAdjFacts.
 Import ListNotations.
 
 (* ================================================================== *)
@@ -198,12 +198,88 @@ Theorem C16_dqm_log10_gap_refuted :
 Proof. exact dqm_log10_gap_refuted. Qed.
 Print Assumptions C16_dqm_log10_gap_refuted.
 
-(* what holds for log10: nothing in 0..U is missed (finite range, by computation) *)
-Theorem C16_dqm_log10_covers_partial :
-  forall U : Z, (1 <= U <= 300)%Z ->
-    forall t, (0 <= t <= U)%Z -> In t (choice_sums (dqm_log10_values U)).
-Proof. exact dqm_log10_covers_partial. Qed.
-Print Assumptions C16_dqm_log10_covers_partial.
+(* log10, for every U >= 1: the encoding reaches exactly 0 .. log10_top U, where
+   log10_top U = (leading digit of U + 1) * 10^(digits - 1) - 1 >= U *)
+Theorem C16_dqm_log10_reach :
+  forall U : Z, (1 <= U)%Z ->
+    forall t, In t (choice_sums (dqm_log10_values U)) <-> (0 <= t <= log10_top U)%Z.
+Proof. exact dqm_log10_reach. Qed.
+Print Assumptions C16_dqm_log10_reach.
+
+Theorem C16_dqm_log10_covers :
+  forall U : Z, (1 <= U)%Z -> forall t, (0 <= t <= U)%Z -> In t (choice_sums (dqm_log10_values U)).
+Proof. exact dqm_log10_covers. Qed.
+Print Assumptions C16_dqm_log10_covers.
+
+(* it is exact precisely when every digit of U below the leading one is 9 (9, 19, 299, 99, ...) *)
+Theorem C16_dqm_log10_exact_iff :
+  forall U : Z, (1 <= U)%Z ->
+    (log10_top U = U <-> ((U + 1) mod 10 ^ Z.of_nat (pred (ndigits (Z.to_nat U) U)) = 0)%Z).
+Proof. exact log10_top_eq_iff. Qed.
+Print Assumptions C16_dqm_log10_exact_iff.
+
+Theorem C16_dqm_log10_gap_when_exact :
+  forall U A ubc : Z, (1 <= U)%Z -> log10_top U = U ->
+    ((ubc - U <= A <= ubc)%Z ->
+       exists sl, In sl (choice_sums (dqm_slack_values Log10 U)) /\ pen_val A sl ubc = 0%Z) /\
+    (~ (ubc - U <= A <= ubc)%Z ->
+       forall sl, In sl (choice_sums (dqm_slack_values Log10 U)) -> (1 <= pen_val A sl ubc)%Z) /\
+    (forall sl, (0 <= pen_val A sl ubc)%Z).
+Proof. exact dqm_log10_gap_when_exact. Qed.
+Print Assumptions C16_dqm_log10_gap_when_exact.
+
+(* and in every other case the gap fails: the sum ubc - log10_top U lies below lb_c and costs nothing *)
+Theorem C16_dqm_log10_overcover_breaks_gap :
+  forall U ubc : Z, (1 <= U)%Z -> (U < log10_top U)%Z ->
+    exists A sl, ~ (ubc - U <= A <= ubc)%Z /\
+                 In sl (choice_sums (dqm_slack_values Log10 U)) /\ pen_val A sl ubc = 0%Z.
+Proof. exact dqm_log10_overcover_breaks_gap. Qed.
+Print Assumptions C16_dqm_log10_overcover_breaks_gap.
+
+(* ================================================================== *)
+(* (3b) the native adjacency bookkeeping of cyDQM.add_linear_equality_constraint (Model/DqmAdj.v):
+   the sorted merge loop computes the union ... *)
+Theorem C16_dqm_merge_loop_is_union :
+  forall (v : nat) (vars adj : list nat) (x : nat),
+    In x (merge_adj v vars adj) <-> In x adj \/ (In x vars /\ x <> v).
+Proof. exact merge_adj_In. Qed.
+Print Assumptions C16_dqm_merge_loop_is_union.
+
+Theorem C16_dqm_merge_loop_sorted :
+  forall (v : nat) (vars adj : list nat),
+    StronglySorted lt vars -> StronglySorted lt adj -> StronglySorted lt (merge_adj v vars adj).
+Proof. exact merge_adj_sorted. Qed.
+Print Assumptions C16_dqm_merge_loop_sorted.
+
+(* ... so after the call two variables are adjacent iff they were, or both occur in the constraint *)
+Theorem C16_dqm_adjacency_spec :
+  forall (grp : label -> nat) (terms : list lterm) (adjs : list (list nat)),
+    (forall t, In t terms -> (grp (fst t) < length adjs)%nat) ->
+    forall i j,
+      In j (nth i (dqm_eq_adjacency grp terms adjs) [])
+      <-> In j (nth i adjs []) \/ (i <> j /\ con_var grp terms i /\ con_var grp terms j).
+Proof. exact dqm_eq_adjacency_spec. Qed.
+Print Assumptions C16_dqm_adjacency_spec.
+
+(* what DQM.energies relies on: every case-level interaction of the expanded polynomial is recorded in
+   both adjacency lists (the statement the seeded change r3m3 broke) *)
+Theorem C16_dqm_adjacency_covers_expansion :
+  forall (grp : label -> nat) (terms : list lterm) (lam c : Qc) (p : poly) (adjs : list (list nat)),
+    (forall t, In t terms -> (grp (fst t) < length adjs)%nat) ->
+    adj_covers grp adjs (p_quad p) ->
+    adj_covers grp (dqm_eq_adjacency grp terms adjs) (p_quad (add_eq_dqm grp terms lam c p)).
+Proof. exact dqm_eq_adjacency_covers. Qed.
+Print Assumptions C16_dqm_adjacency_covers_expansion.
+
+Theorem C16_dqm_adjacency_invariants :
+  forall (grp : label -> nat) (terms : list lterm) (adjs : list (list nat)),
+    (forall t, In t terms -> (grp (fst t) < length adjs)%nat) ->
+    adj_sym adjs -> adj_irrefl adjs -> (forall i, StronglySorted lt (nth i adjs [])) ->
+    adj_sym (dqm_eq_adjacency grp terms adjs) /\ adj_irrefl (dqm_eq_adjacency grp terms adjs) /\
+    (forall i, StronglySorted lt (nth i (dqm_eq_adjacency grp terms adjs) [])) /\
+    length (dqm_eq_adjacency grp terms adjs) = length adjs.
+Proof. exact dqm_eq_adjacency_invariants. Qed.
+Print Assumptions C16_dqm_adjacency_invariants.
 
 (* ================================================================== *)
 (* (4) cqm_to_bqm *)
@@ -294,6 +370,10 @@ Proof. vm_compute; reflexivity. Qed.
 Example C16_ex_plan : plan_inequality [3; -2; 5]%Z 1 0 6 = Slack 5 [1; 2; 3]%Z.
 Proof. vm_compute; reflexivity. Qed.
 Example C16_ex_log10_15 : dqm_log10_values 15 = [[0; 1; 2; 3; 4; 5; 6; 7; 8; 9]; [0; 10]]%Z.
+Proof. vm_compute; reflexivity. Qed.
+Example C16_ex_log10_top : map log10_top [9; 15; 19; 99; 100; 299; 300]%Z = [9; 19; 19; 99; 199; 299; 399]%Z.
+Proof. vm_compute; reflexivity. Qed.
+Example C16_ex_merge : merge_adj 2 [1; 2; 3] [0; 3; 5] = [0; 1; 3; 5].
 Proof. vm_compute; reflexivity. Qed.
 Example C16_ex_log10_99 : length (choice_sums (dqm_log10_values 99)) = 100%nat.
 Proof. vm_compute; reflexivity. Qed.
